@@ -293,6 +293,10 @@ func (c05) Exec(c Case) [][][]string {
 		pre.Stop()
 		c05FnSeq++
 		name := fmt.Sprintf("zzid%d", c05FnSeq)
+		// … and a statement that calls the function was rejected while the function did not exist yet
+		early := streamsql.New(streamsql.WithDiscardLog())
+		_ = early.Execute("SELECT a FROM stream WHERE " + name + "(a) >= 0")
+		early.Stop()
 		_ = functions.RegisterCustomFunction(name, functions.TypeCustom, "verif", "identity", 1, 1,
 			func(ctx *functions.FunctionContext, args []interface{}) (interface{}, error) { return args[0], nil })
 		defer functions.Unregister(name)
